@@ -493,15 +493,29 @@ func asteriskDefineProcess(
 		positionalArgTs = append(positionalArgTs, rt)
 	}
 
-	if mustBindCt >= len(positionalArgTs) {
-		base.SetValueT(
+	// the rest parameter of a configured method keeps its declared type
+	declaredT :=
+		base.GetValueT(
 			m.evaluatedObjectT.GetFrame(),
 			class,
 			m.method,
 			definedArgNames[defineArgIdx][1:],
-			asteriskArrayT,
 			isStatic,
 		)
+
+	isConfigured := declaredT != nil && declaredT.IsBuiltin()
+
+	if mustBindCt >= len(positionalArgTs) {
+		if !isConfigured {
+			base.SetValueT(
+				m.evaluatedObjectT.GetFrame(),
+				class,
+				m.method,
+				definedArgNames[defineArgIdx][1:],
+				asteriskArrayT,
+				isStatic,
+			)
+		}
 
 		defineArgIdx++
 
@@ -518,14 +532,16 @@ func asteriskDefineProcess(
 		argIdx++
 	}
 
-	base.SetValueT(
-		m.evaluatedObjectT.GetFrame(),
-		class,
-		m.method,
-		definedArgNames[defineArgIdx][1:],
-		asteriskArrayT,
-		isStatic,
-	)
+	if !isConfigured {
+		base.SetValueT(
+			m.evaluatedObjectT.GetFrame(),
+			class,
+			m.method,
+			definedArgNames[defineArgIdx][1:],
+			asteriskArrayT,
+			isStatic,
+		)
+	}
 
 	argIdx++
 	defineArgIdx++
